@@ -10,6 +10,7 @@ package multinode
 //@   // the submitters are the beacon node clients built in main.go, none of them nil
 //@   valid self.clientMonitor != nil
 //@   valid forall k string :: in(self.syncCommitteeMessagesSubmitter, k) ==> !isnil(self.syncCommitteeMessagesSubmitter[k])
+//@   valid self.processConcurrency >= 1
 //@   valid forall k string :: in(self.attestationsSubmitters, k) ==> !isnil(self.attestationsSubmitters[k])
 //@
 //@ extern golang.org/x/sync/semaphore.NewWeighted
@@ -22,12 +23,13 @@ package multinode
 //@ func (*Service).SubmitSyncCommitteeMessages$1
 //@   requires s != nil && w != nil
 //@
-//@ func (*Service).submitSyncCommitteeMessages
-//@   requires s != nil && sem != nil && w != nil && submissionCompleted != nil && !isnil(submitter)
-//@   requires len(messages) > 0 && messages[0] != nil
-//@
 //@ func (*Service).handleSubmitSyncCommitteeMessagesError
 //@   requires s != nil && !isnil(err)
+//@   assumes call serviceInfo#1 (kind, addr): kind == nodeKind()
+//@   // an error is only ever dropped for a lighthouse or teku node whose answer carries a JSON body; otherwise the
+//@   // node's own error comes back
+//@   ensures result == nil ==> (nodeKind() == "lighthouse" || nodeKind() == "teku") && strindex(errtext(err), "{") != -1
+//@   ensures result != nil ==> result == err
 //@
 //@ // ---- C08: a submission is offered in full to every configured node and succeeds iff one accepts ----
 //@ // what the completion flag showed when it was read after the wait
@@ -171,3 +173,96 @@ package multinode
 //@   // success is reported exactly when some node's goroutine had set the completion flag by the end of the wait
 //@   ensures len(subscriptions) > 0 ==> (result == nil <==> flagSeen())
 //@   ensures !(len(subscriptions) > 0) ==> result != nil && calls(go) == 0
+//@
+//@ // ---- C08: the goroutine of one node: it offers exactly what it was handed, and sets the completion flag exactly
+//@ // when that node accepted the submission or refused it only for a reason Vouch tolerates from that client ----
+//@ spec func nodeErr() error
+//@ spec func toleratedErr() error
+//@
+//@ func (*Service).submitProposal
+//@   requires s != nil && sem != nil && w != nil && submissionCompleted != nil && !isnil(submitter) && proposal != nil
+//@   assumes call SubmitProposal#1 (err): err == nodeErr()
+//@   at call SubmitProposal#1: assert arg1 != nil && arg1.Proposal == proposal
+//@   at call Store#1: assert arg0 == submissionCompleted && arg1
+//@   ensures calls(Store) == 1 <==> (calls(SubmitProposal) == 1 && nodeErr() == nil)
+//@   ensures calls(Store) <= 1
+//@
+//@ func (*Service).submitAggregateAttestations
+//@   requires s != nil && sem != nil && w != nil && submissionCompleted != nil && !isnil(submitter) && len(aggregates) > 0 && aggregates[0] != nil && aggregates[0].Message != nil && aggregates[0].Message.Aggregate != nil && aggregates[0].Message.Aggregate.Data != nil
+//@   assumes call SubmitAggregateAttestations#1 (err): err == nodeErr()
+//@   at call SubmitAggregateAttestations#1: assert arg1 == aggregates
+//@   at call Store#1: assert arg0 == submissionCompleted && arg1
+//@   ensures calls(Store) == 1 <==> (calls(SubmitAggregateAttestations) == 1 && nodeErr() == nil)
+//@   ensures calls(Store) <= 1
+//@
+//@ func (*Service).submitBeaconCommitteeSubscriptions
+//@   requires s != nil && sem != nil && w != nil && submissionCompleted != nil && !isnil(submitter) && true
+//@   assumes call SubmitBeaconCommitteeSubscriptions#1 (err): err == nodeErr()
+//@   at call SubmitBeaconCommitteeSubscriptions#1: assert arg1 == subscriptions
+//@   at call Store#1: assert arg0 == submissionCompleted && arg1
+//@   ensures calls(Store) == 1 <==> (calls(SubmitBeaconCommitteeSubscriptions) == 1 && nodeErr() == nil)
+//@   ensures calls(Store) <= 1
+//@
+//@ func (*Service).submitProposalPreparations
+//@   requires s != nil && sem != nil && w != nil && submissionCompleted != nil && !isnil(submitter) && true
+//@   assumes call SubmitProposalPreparations#1 (err): err == nodeErr()
+//@   at call SubmitProposalPreparations#1: assert arg1 == preparations
+//@   at call Store#1: assert arg0 == submissionCompleted && arg1
+//@   ensures calls(Store) == 1 <==> (calls(SubmitProposalPreparations) == 1 && nodeErr() == nil)
+//@   ensures calls(Store) <= 1
+//@
+//@ func (*Service).submitSyncCommitteeSubscriptions
+//@   requires s != nil && sem != nil && w != nil && submissionCompleted != nil && !isnil(submitter) && true
+//@   assumes call SubmitSyncCommitteeSubscriptions#1 (err): err == nodeErr()
+//@   at call SubmitSyncCommitteeSubscriptions#1: assert arg1 == subscriptions
+//@   at call Store#1: assert arg0 == submissionCompleted && arg1
+//@   ensures calls(Store) == 1 <==> (calls(SubmitSyncCommitteeSubscriptions) == 1 && nodeErr() == nil)
+//@   ensures calls(Store) <= 1
+//@
+//@ func (*Service).submitSyncCommitteeMessages
+//@   requires s != nil && sem != nil && w != nil && submissionCompleted != nil && !isnil(submitter) && len(messages) > 0 && messages[0] != nil
+//@   assumes call SubmitSyncCommitteeMessages#1 (err): err == nodeErr()
+//@   at call SubmitSyncCommitteeMessages#1: assert arg1 == messages
+//@   at call Store#1: assert arg0 == submissionCompleted && arg1
+//@   assumes call handleSubmitSyncCommitteeMessagesError#1 (e): e == toleratedErr()
+//@   ensures calls(Store) == 1 <==> (calls(SubmitSyncCommitteeMessages) == 1 && (nodeErr() == nil || toleratedErr() == nil))
+//@   ensures calls(Store) <= 1
+//@
+//@ func (*Service).submitSyncCommitteeContributions
+//@   requires s != nil && sem != nil && w != nil && submissionCompleted != nil && !isnil(submitter) && len(contributionAndProofs) > 0 && contributionAndProofs[0] != nil && contributionAndProofs[0].Message != nil && contributionAndProofs[0].Message.Contribution != nil
+//@   assumes call SubmitSyncCommitteeContributions#1 (err): err == nodeErr()
+//@   at call SubmitSyncCommitteeContributions#1: assert arg1 == contributionAndProofs
+//@   at call Store#1: assert arg0 == submissionCompleted && arg1
+//@   assumes call handleSubmitSyncCommitteeContributionsError#1 (e): e == toleratedErr()
+//@   ensures calls(Store) == 1 <==> (calls(SubmitSyncCommitteeContributions) == 1 && (nodeErr() == nil || toleratedErr() == nil))
+//@   ensures calls(Store) <= 1
+//@
+//@ // ---- C08: which refusals are tolerated ----
+//@ spec func nodeKind() string
+//@ func (*Service).handleAttestationsError
+//@   requires !isnil(err)
+//@   assumes call serviceInfo#1 (kind, addr): kind == nodeKind()
+//@   // a refusal is tolerated exactly for "already known" and "node behind the head" answers of the client concerned
+//@   ensures result == nil <==> ((nodeKind() == "lighthouse" && (strcontains(errtext(err), "PriorAttestationKnown") || strcontains(errtext(err), "UnknownHeadBlock"))) || (nodeKind() == "nimbus" && strcontains(errtext(err), "Attempt to send attestation for unknown target")))
+//@   ensures result != nil ==> result == err
+//@
+//@ // the goroutine of one node for attestations: the attestations are offered through util.Scatter in chunks that
+//@ // partition the whole list (see util.Scatter)
+//@ func (*Service).submitAttestations
+//@   requires s != nil && sem != nil && w != nil && submissionCompleted != nil && !isnil(submitter) && len(attestations) > 0 && attestations[0] != nil && attestations[0].Data != nil
+//@   assumes call Scatter#1 (r, err): err == nodeErr()
+//@   at call Scatter#1: assert arg0 == len(attestations)
+//@   assumes call handleAttestationsError#1 (e): e == toleratedErr()
+//@   at call Store#1: assert arg0 == submissionCompleted && arg1
+//@   ensures calls(Store) == 1 <==> (calls(Scatter) == 1 && (nodeErr() == nil || toleratedErr() == nil))
+//@   ensures calls(Store) <= 1
+//@
+//@ // the work function handed to Scatter offers the chunk it is given, of these attestations
+//@ func (*Service).submitAttestations$1
+//@   requires 0 <= offset && 0 <= entries && offset + entries <= len(attestations) && !isnil(submitter)
+//@   at call SubmitAttestations#1: assert len(arg1) == entries
+//@
+//@ func (*Service).handleSubmitSyncCommitteeContributionsError
+//@   requires s != nil && !isnil(err)
+//@   assumes call serviceInfo#1 (kind, addr): kind == nodeKind()
+//@   ensures result == nil ==> nodeKind() == "lighthouse" && strindex(errtext(err), "{") != -1
